@@ -100,6 +100,7 @@ def s_pteq(cx, rule, fn):
     inst = fn.short
     a, b = fn.local_name(1), fn.local_name(2)
     xs, ys = [], []
+    cross_fail = []
     for bb, p, te, fe in G.bool_switches(fn, P):
         if p.kind in ('eq', 'cmp') and len(p.args) == 2:
             s = cn.c(p.args[0]) + ' ' + cn.c(p.args[1])
@@ -108,10 +109,15 @@ def s_pteq(cx, rule, fn):
                 continue
             eq_true = not p.neg if p.kind == 'eq' else (p.op == 'Eq') != p.neg
             passed = te if eq_true else fe
+            failing = fe if eq_true else te
             if (a, 'x') in c and (b, 'x') in c and not any(ax == 'y' for _, ax in c):
                 xs.append((bb, passed))
             if (a, 'y') in c and (b, 'y') in c and not any(ax == 'x' for _, ax in c):
                 ys.append((bb, passed))
+            # a comparison of cross-multiplied coordinates (x1*z2^2 with x2*z1^2, y likewise): the only kind whose failure
+            # shows that two Jacobian triples denote different points
+            if (a, 'z') in c and (b, 'z') in c and (((a, 'x') in c and (b, 'x') in c) or ((a, 'y') in c and (b, 'y') in c)):
+                cross_fail += failing
     # true exits: `_0 = const true` or `_0 = <y comparison>` (returning the last comparison)
     true_blocks = []
     ycmp_ret = []
@@ -137,6 +143,11 @@ def s_pteq(cx, rule, fn):
     okx = bool(xs) and not G.reachable_without(fn, true_blocks + ycmp_ret, [e for _, ps in xs for e in ps])
     oky = (not true_blocks) or (bool(ys) and not G.reachable_without(fn, true_blocks, [e for _, ps in ys for e in ps]))
     cx.add(rule, inst + '/x', okx, '`true` is returned only after x1*z2^2 == x2*z1^2 held (x tests bb%s; true exits bb%s, y-comparison returns bb%s)' % ([b_ for b_, _ in xs], true_blocks, ycmp_ret), fn.loc())
+    false_blocks = [bb for bb, i, st in fn.stmts() if st['k'] == 'assign' and st['lhs']['l'] == 0 and not st['lhs']['p']
+                    and cn.c(norm(P.rvalue(st['rv'], bb, i, 0))) in ('0', 'false')]
+    left_false = G.reachable_without(fn, false_blocks, cross_fail) if false_blocks else []
+    cx.add(rule, inst + '/false', not left_false,
+           '`false` is returned only after a comparison of cross-multiplied coordinates failed (raw coordinates of two Jacobian triples say nothing, e.g. for two forms of the identity): false exits bb%s, reachable without such a failure: bb%s' % (false_blocks, left_false), fn.loc())
     cx.add(rule, inst + '/y', oky and bool(ys or ycmp_ret), '`true` is returned only after y1*z2^3 == y2*z1^3 held (a point and its negative share x)', fn.loc())
 
 
